@@ -110,7 +110,7 @@ pub fn check_layer(f: &P, bound: usize, loc: &mut Local) {
     };
     let gb = groups_ok(&base);
     explore(loc, "layered_operations", bound, &|| json!({"f": f}), &base, || A::layered_operations(f), |a, _| groups_ok(a) == gb && match (a, &base) {
-        (Ok((ga, ua)), Ok((gv, uv))) => ua == uv && (0..f.edges.len()).all(|v| ua[v] == 1 || ga.iter().position(|grp| grp.contains(&v)) == gv.iter().position(|grp| grp.contains(&v))),
+        (Ok((_, ua)), Ok((_, uv))) => ua == uv,
         (Err(_), Err(_)) => true,
         _ => false,
     }, |a, b| a == b);
